@@ -98,7 +98,7 @@ const HTML_TAGS: &[&str] = &[
     "div", "span", "input", "select", "textarea", "a", "p", "button", "svg", "circle",
     "linearGradient", "ul", "li",
 ];
-const CUSTOM_TAGS: &[&str] = &["i-x", "my-el", "foo-el-bar"];
+const CUSTOM_TAGS: &[&str] = &["i-x", "my-el", "foo-el-bar", "IonCard"];
 const UNBOUND_COMPS: &[&str] = &["Foo", "foo", "my-comp", "Bar", "_Fragment", "KeepAlive", "Fragment"];
 const ATTR_NAMES: &[&str] = &[
     "id", "class", "style", "key", "ref", "title", "onClick", "onFoo", "onUpdate:modelValue",
@@ -107,7 +107,7 @@ const ATTR_NAMES: &[&str] = &[
 ];
 const DIR_NAMES: &[&str] = &[
     "v-show", "v-foo", "v-foo-bar", "vFoo", "vFooBar", "v-html", "v-text", "v-model",
-    "v-models", "v-slots", "vModel", "vShow", "vHtml", "vSlots", "v-x", "vX",
+    "v-models", "v-slots", "vModel", "vShow", "vHtml", "vSlots", "v-x", "vX", "v-visible", "v-vv",
 ];
 const MODS: &[&str] = &["_a", "_b", "_trim", "_lazy", "_a_b", "_", "__a", "_1"];
 const DIR_ARGS: &[&str] = &[":arg", ":a-b", ":modelValue", ":x_y", ":arg_m", ":arg_m1_m2", ":_m"];
@@ -547,7 +547,11 @@ impl<'a, 'b> G<'a, 'b> {
         // any tag text one of the pattern pools could match (conservative for C14)
         // (member-expression tags are never custom elements: no pattern governs them)
         if !tag.contains('.')
-            && (tag.contains("el") || tag.starts_with("i-") || tag.starts_with("my-") || tag.contains(':'))
+            && (tag.contains("el")
+                || tag.starts_with("i-")
+                || tag.starts_with("my-")
+                || tag.starts_with("Ion")
+                || tag.contains(':'))
         {
             self.f.custom_tag = true;
         }
@@ -946,11 +950,23 @@ impl<'a, 'b> G<'a, 'b> {
         let name = self.fresh("Comp");
         let (p1, p2) = if self.k.tsx {
             let t = self.ts_type(0);
-            let d = match self.c.pick(4) {
+            let d = match self.c.pick(6) {
                 0 => String::new(),
                 1 => " = { k1: 1, n: f() }".to_string(),
                 2 => " = p".to_string(),
-                _ => " = { ...p, [x]: 1, get k1() { return 1; }, m1() {}, async am() {} }".to_string(),
+                3 => " = { ...p, [x]: 1, get k1() { return 1; }, m1() {}, async am() {} }".to_string(),
+                // JSX inside the defaults (copied into the derived props option)
+                4 => {
+                    self.f.jsx += 1;
+                    self.f.sole_ident_or_call_child = true; // `<C>{x}</C>` below
+                    self.f.ctx("jsx-in-prop-defaults");
+                    " = { k1: <b id={x} />, get n() { return <i>t</i>; }, m1() { return <C>{x}</C>; } }".to_string()
+                }
+                _ => {
+                    self.f.jsx += 1;
+                    self.f.ctx("jsx-in-prop-defaults");
+                    " = f(<div class=\"d\" />, { ...p })".to_string()
+                }
             };
             let e = match self.c.pick(4) {
                 0 => String::new(),
